@@ -404,6 +404,24 @@ func (d *DiskQueue) retrieveMetaData() error {
 	d.nextReadFileNum = d.readFileNum
 	d.nextReadPos = d.readPos
 
+	// if the metadata was not synced when the process last stopped (crash, kill), the
+	// current write file can be larger than writePos. writing at writePos would overwrite
+	// records that the reader may already have buffered or may still salvage, so the
+	// safest thing to do is to start a new file for writes, and let the reader
+	// deliver what it can from the messages beyond the persisted position
+	fileInfo, err := os.Stat(d.fileName(d.writeFileNum))
+	if err != nil {
+		if os.IsNotExist(err) {
+			return nil
+		}
+		return err
+	}
+	if d.writePos < fileInfo.Size() {
+		log.Printf("DISKQUEUE(%s): metadata writePos %d < file size of %d, skipping to new file", d.name, d.writePos, fileInfo.Size())
+		d.writeFileNum++
+		d.writePos = 0
+	}
+
 	return nil
 }
 
